@@ -118,7 +118,7 @@ func c15Seq(variant string, ops []string) func(x *sched.Exec) {
 		shutOK := false                // a provider Shutdown returned nil
 		shutTried := false             // a provider Shutdown was called (whatever it returned)
 		shutFailed := false            // a provider Shutdown returned an error (cut short by its context)
-		var lateSpans []string // spans started and ended after a Shutdown had returned nil: never exported, however late
+		var lateSpans []string         // spans started and ended after a Shutdown had returned nil: never exported, however late
 		totalSpans := 0
 		spansWhileP1 := 0 // spans ended while the stock processor p1 was a member and the provider live
 		procOf := func(id string) SpanProcessor {
